@@ -16,10 +16,13 @@ import (
 	"errors"
 	"fmt"
 	"os"
+	"os/exec"
 	"path/filepath"
 	"sort"
 	"strconv"
 	"strings"
+	"sync"
+	"time"
 	"unicode/utf8"
 
 	"github.com/sourcegraph/zoekt"
@@ -56,6 +59,7 @@ type repoSpec struct {
 	Docs     []docSpec `json:"docs"`
 	ViaBuilder bool    `json:"via_builder,omitempty"` // built with index.Builder instead of ShardBuilder
 	Tomb     bool      `json:"tomb,omitempty"`        // tombstoned after building
+	FileTombs []string `json:"file_tombstones,omitempty"` // Repository.FileTombstones, written into the .meta sidecar (as a delta build does)
 }
 
 type caseSpec struct {
@@ -63,6 +67,7 @@ type caseSpec struct {
 	Compound [][]int    `json:"compound,omitempty"` // groups of repo indices pre-merged into compound input shards
 	Order    []int      `json:"order,omitempty"`    // order of the input shards on the merge call
 	Class    string     `json:"class"`
+	CmdPath  bool       `json:"cmd_path,omitempty"` // additionally drive the real zoekt-merge-index binary: merge, re-merge, explode
 }
 
 var exts = []string{".go", ".py", ".txt", ".h", ".md", ".xyz", "", ".json", ".c"}
@@ -171,6 +176,13 @@ func genRepo(r *gen.Rand, idx int, manyBranches bool, forceBranches []string) re
 		rs.Docs[0].Branches = []string{rs.Branches[len(rs.Branches)-1], rs.Branches[1]}
 	}
 	rs.ViaBuilder = r.Chance(1, 8) && len(rs.SubRepos) == 0
+	// the older shard of a delta-indexed repository: some of its files are superseded (FileTombstones in the sidecar)
+	if len(rs.Docs) >= 2 && r.Chance(1, 4) {
+		rs.FileTombs = []string{rs.Docs[r.Intn(len(rs.Docs))].Name}
+		if r.Bool() {
+			rs.FileTombs = append(rs.FileTombs, "gone/long-ago.txt") // a path the shard does not even hold
+		}
+	}
 	return rs
 }
 
@@ -182,6 +194,11 @@ func genCase(r *gen.Rand, i int) caseSpec {
 	many := i%9 == 8 || i == 2
 	if i == 0 {
 		n = r.Range(3, 4)
+	}
+	// the command path runs on a late case: the binary is being built in the background since the start of the run
+	cs.CmdPath = i%10 == 6
+	if cs.CmdPath && n < 2 {
+		n = 2
 	}
 	if i == 1 {
 		n = 4
@@ -200,6 +217,9 @@ func genCase(r *gen.Rand, i int) caseSpec {
 			}
 			rs.Docs[0].Branches = []string{"main"}
 			rs.Docs[1].Branches = []string{"release", "HEAD"}
+			if k == 0 {
+				rs.FileTombs = []string{rs.Docs[1].Name} // every run: a repository with a superseded file
+			}
 		}
 		cs.Repos = append(cs.Repos, rs)
 	}
@@ -224,6 +244,7 @@ func genCase(r *gen.Rand, i int) caseSpec {
 				cs.Repos[0].Docs = append(cs.Repos[0].Docs, genDoc(r, 0, cs.Repos[0].Branches, cs.Repos[0].SubRepos))
 			}
 			cs.Repos[1].Tomb, cs.Repos[0].Tomb = true, false
+			cs.Repos[0].FileTombs = []string{cs.Repos[0].Docs[0].Name}
 		}
 	}
 	// the order of the inputs on the call: merge must not depend on it (beyond ties in priority)
@@ -321,6 +342,39 @@ func buildSimple(dir string, rs repoSpec) (string, error) {
 		return "", err
 	}
 	return p, f.Close()
+}
+
+// setFileTombstones writes Repository.FileTombstones of repository `name` into the shard's .meta sidecar, the way a delta
+// build does for the older shards of a repository (index.Builder.Finish: JsonMarshalRepoMetaTemp + rename).
+func setFileTombstones(shard, name string, paths []string) error {
+	repos, md, err := index.ReadMetadataPath(shard)
+	if err != nil {
+		return err
+	}
+	found := false
+	for _, r := range repos {
+		if r.Name == name {
+			found = true
+			if r.FileTombstones == nil {
+				r.FileTombstones = map[string]struct{}{}
+			}
+			for _, p := range paths {
+				r.FileTombstones[p] = struct{}{}
+			}
+		}
+	}
+	if !found {
+		return nil // the repository is not in this shard (e.g. dropped as empty)
+	}
+	var payload any = repos
+	if md.IndexFormatVersion < 17 {
+		payload = repos[0] // a v16 sidecar holds one repository object
+	}
+	tmp, final, err := index.JsonMarshalRepoMetaTemp(shard, payload)
+	if err != nil {
+		return err
+	}
+	return os.Rename(tmp, final)
 }
 
 type opened struct {
@@ -742,6 +796,11 @@ func runCase(work string, cs caseSpec, id int) ([]gen.Case, error) {
 			o.s.Close()
 		}
 		for _, k := range g {
+			if len(cs.Repos[k].FileTombs) > 0 {
+				if err := setFileTombstones(c, cs.Repos[k].Name, cs.Repos[k].FileTombs); err != nil {
+					return nil, err
+				}
+			}
 			if cs.Repos[k].Tomb && len(cs.Repos[k].Docs) > 0 {
 				if err := index.SetTombstone(c, cs.Repos[k].ID); err != nil {
 					return nil, err
@@ -753,6 +812,11 @@ func runCase(work string, cs caseSpec, id int) ([]gen.Case, error) {
 	for i := range cs.Repos {
 		if used[i] {
 			continue
+		}
+		if len(cs.Repos[i].FileTombs) > 0 {
+			if err := setFileTombstones(paths[i], cs.Repos[i].Name, cs.Repos[i].FileTombs); err != nil {
+				return nil, err
+			}
 		}
 		inputs = append(inputs, paths[i])
 	}
@@ -843,7 +907,169 @@ func runCase(work string, cs caseSpec, id int) ([]gen.Case, error) {
 			}
 		}
 	}
+
+	// 6. the command: zoekt-merge-index merge / merge again (onto its own name) / explode, in one index directory
+	if cs.CmdPath {
+		t0 := time.Now()
+		out = append(out, cmdCases(cs, inputs, filepath.Join(dir, "cmd"), detail)...)
+		fmt.Fprintf(os.Stderr, "c16: command path (build + merge, re-merge, explode): %v\n", time.Since(t0).Round(time.Millisecond))
+	}
 	return out, nil
+}
+
+var (
+	binOnce sync.Once
+	binPath string
+	binErr  error
+)
+
+// mergeIndexBinary builds the real command from the working tree (once per run; the Go build cache makes it cheap).
+func mergeIndexBinary() (string, error) {
+	binOnce.Do(func() {
+		root, work := os.Getenv("VERIF_ROOT"), os.Getenv("VERIF_WORK")
+		if root == "" || work == "" {
+			binErr = fmt.Errorf("VERIF_ROOT / VERIF_WORK not set")
+			return
+		}
+		binPath = filepath.Join(work, "c16-zoekt-merge-index")
+		cmd := exec.Command("go", "build", "-tags", "verif", "-o", binPath, "github.com/sourcegraph/zoekt/cmd/zoekt-merge-index")
+		cmd.Dir = filepath.Join(root, "harness")
+		if out, err := cmd.CombinedOutput(); err != nil {
+			binErr = fmt.Errorf("building zoekt-merge-index: %v: %s", err, out)
+		}
+	})
+	return binPath, binErr
+}
+
+func zoektFiles(dir string) []string {
+	ents, _ := os.ReadDir(dir)
+	var ps []string
+	for _, e := range ents {
+		if strings.HasSuffix(e.Name(), ".zoekt") {
+			ps = append(ps, filepath.Join(dir, e.Name()))
+		}
+	}
+	return ps
+}
+
+// cmdCases: the end-to-end path through the command. The input shards (and sidecars) are hard-linked into a pristine
+// directory (the "before" side of every comparison) and into an index directory on which the real binary runs
+//   merge <all inputs>;  merge <the compound shard>  (a re-merge: without tombstones the name does not change);  explode.
+// After each step every *.zoekt file of the index directory must show exactly what the inputs showed.
+func cmdCases(cs caseSpec, inputs []string, dir string, detail json.RawMessage) []gen.Case {
+	mk := func(step, g, k string) gen.Case {
+		c := gen.Case{Class: "cmd/" + step, Detail: detail, Nontrivial: true}
+		if g != "" {
+			c.Go, c.Key = "zoekt-merge-index "+step+": "+g, "cmd-"+step+"-"+k
+		}
+		return c
+	}
+	bin, err := mergeIndexBinary()
+	if err != nil {
+		return []gen.Case{mk("setup", err.Error(), "build")}
+	}
+	orig, idx := filepath.Join(dir, "orig"), filepath.Join(dir, "index")
+	os.MkdirAll(orig, 0o755)
+	os.MkdirAll(idx, 0o755)
+	var before, args []string
+	for i, p := range inputs {
+		// inputs of one case live in different directories and may share a file name only if they share a repository name
+		name := filepath.Base(p)
+		for _, d := range []string{orig, idx} {
+			if err := os.Link(p, filepath.Join(d, name)); err != nil {
+				return []gen.Case{mk("setup", fmt.Sprintf("input %d: %v", i, err), "link")}
+			}
+			if _, err := os.Stat(p + ".meta"); err == nil {
+				os.Link(p+".meta", filepath.Join(d, name+".meta"))
+			}
+		}
+		before = append(before, filepath.Join(orig, name))
+		args = append(args, filepath.Join(idx, name))
+	}
+	run := func(a ...string) (string, string, error) {
+		ctx, cancel := context.WithTimeout(context.Background(), 3*time.Minute)
+		defer cancel()
+		cmd := exec.CommandContext(ctx, bin, a...)
+		var so, se bytes.Buffer
+		cmd.Stdout, cmd.Stderr = &so, &se
+		err := cmd.Run()
+		return strings.TrimSpace(so.String()), se.String(), err
+	}
+	compare := func(step string) gen.Case {
+		after := zoektFiles(idx)
+		if g, k := e2e(cs, before, after); g != "" {
+			return mk(step, fmt.Sprintf("%s (index directory now holds %d shard file(s))", g, len(after)), k)
+		}
+		ents, _ := os.ReadDir(idx)
+		for _, e := range ents {
+			if !strings.HasSuffix(e.Name(), ".zoekt") && !strings.HasSuffix(e.Name(), ".zoekt.meta") {
+				return mk(step, "left "+e.Name()+" behind", "leftover")
+			}
+		}
+		return mk(step, "", "")
+	}
+	var out []gen.Case
+	// merge
+	printed, stderr, err := run(append([]string{"merge"}, args...)...)
+	if err != nil {
+		// a merge that fails must leave the inputs alone
+		c := compare("merge-failed")
+		if c.Go == "" && !strings.Contains(stderr, "need 1 or more") {
+			c.Go, c.Key = "zoekt-merge-index merge failed: "+clip(stderr), "cmd-merge-error"
+		}
+		return append(out, c)
+	}
+	out = append(out, compare("merge"))
+	if _, serr := os.Stat(printed); serr != nil {
+		// every input repository was empty: nothing to continue with
+		return out
+	}
+	if _, _, oerr := dumpPath(printed, false); oerr != nil {
+		return out // compound shard without repositories (all inputs empty): not loadable, nothing to re-merge
+	}
+	// merge again: the compound shard alone. The name of a compound shard is a hash of the live repository names of its
+	// inputs, so re-merging a compound shard that has neither tombstoned nor empty repositories writes the new shard
+	// under the name of its own input. The first merge may still have seen empty repositories (they count for the name
+	// but are not copied); repeat until the name is stable, so that every run covers the same-name re-merge.
+	printed2 := printed
+	for round := 1; round <= 3; round++ {
+		prev := printed2
+		var stderr string
+		printed2, stderr, err = run("merge", prev)
+		if err != nil {
+			c := compare("remerge-failed")
+			if c.Go == "" {
+				c.Go, c.Key = "zoekt-merge-index merge <compound> failed: "+clip(stderr), "cmd-remerge-error"
+			}
+			return append(out, c)
+		}
+		step := "remerge"
+		if printed2 == prev {
+			step = "remerge-same-name"
+		}
+		c := compare(step)
+		if c.Go == "" {
+			if _, serr := os.Stat(printed2); serr != nil {
+				c.Go, c.Key = "the printed compound shard "+filepath.Base(printed2)+" does not exist", "cmd-"+step+"-missing-output"
+			}
+		}
+		out = append(out, c)
+		if c.Go != "" {
+			return out
+		}
+		if printed2 == prev {
+			break
+		}
+	}
+	// explode
+	if _, stderr, err := run("explode", printed2); err != nil {
+		c := compare("explode-failed")
+		if c.Go == "" {
+			c.Go, c.Key = "zoekt-merge-index explode failed: "+clip(stderr), "cmd-explode-error"
+		}
+		return append(out, c)
+	}
+	return append(out, compare("explode"))
 }
 
 // explodeCase copies the compound shard src (and its sidecar) into edir, runs the real index.Explode there and
@@ -970,6 +1196,9 @@ func main() {
 			if rs.ViaBuilder {
 				w.Count("repos-via-index.Builder", 1)
 			}
+			if len(rs.FileTombs) > 0 {
+				w.Count("repos-with-file-tombstones", 1)
+			}
 			if len(rs.SubRepos) > 0 {
 				w.Count("repos-with-subrepos", 1)
 			}
@@ -1038,9 +1267,12 @@ func main() {
 		}
 	}
 	r := gen.NewRand(f.Seed)
-	n := f.N(9, 220)
+	n := f.N(7, 220)
+	t0 := time.Now()
+	go mergeIndexBinary() // linked while the first cases run
 	for i := 0; i < n; i++ {
 		run(genCase(r, i), id)
 		id++
 	}
+	fmt.Fprintf(os.Stderr, "c16: %d generated cases in %v\n", n, time.Since(t0).Round(time.Millisecond))
 }
